@@ -650,6 +650,21 @@ def llvar(chk, bodies, crates):
         r = strip_ref(rems[0][1])
         ok = r[0] == "call" and r[1] in INDEX and strip_ref(r[2][1])[0] == "agg" and \
             strip_ref(r[2][1])[1].endswith("RangeFrom::RangeFrom") and strip_ref(r[2][1])[2][0] == ("constparam", "N")
+    if not ok and len(rems) == 1:
+        # the same thing with a slice iterator: `let mut it = data.iter(); for _ in 0..N { it.next()..; } .. it.as_slice()` -
+        # one `next()` on every trip of the one 0..N loop and nowhere else leaves exactly data[N..]
+        r = strip_ref(rems[0][1])
+        if r[0] == "call" and r[1] == "core::slice::iter::Iter::<'a, T>::as_slice" and contracts.suffix_of_param(pd, r):
+            it = strip_ref(r[2][0])
+            nx = [(bb, t) for bb, t in de.calls() if callee(t) == "core::iter::traits::iterator::Iterator::next" and
+                  "core::slice::iter::Iter" in ty_str(t["f"]["a"][0])]
+            lps = range_loops(pd)
+            if it[0] == "var" and len(nx) == 1 and len(lps) == 1 and lps[0]["lo"] == ("const", 0) and lps[0]["hi"] == ("constparam", "N"):
+                a0 = strip_ref(pd.vx.operand(nx[0][1]["args"][0], nx[0][0]))
+                loops_ = de.natural_loops()
+                inside = [(h, blks) for h, blks in loops_.items() if nx[0][0] in blks]
+                ok = a0[0] == "var" and a0[2] == it[2] and len(inside) >= 1 and \
+                    all(contracts.cycles_broken_by(de, h, blks, {nx[0][0]}) for h, blks in inside if not contracts.is_await_loop(de, blks))
     chk.require(ok, "C16-d/data-offset", "LlvImpl::deserialize", "data does not start at offset N", "&data[N..]", de.sp())
     # writer most significant digit first: index runs (0..N).rev(); reader 0..N ascending with acc*10 + d
     rev = [t for _, t in ser.calls() if callee(t) == "core::iter::traits::iterator::Iterator::rev"]
